@@ -21,8 +21,10 @@ witness that the harness replays on the real code on every run:
   — `StageTables` filters *every* name through dolt_ignore, not only new tables (finding D2).
 
 `moreSpecific_sound` needs one hypothesis that is genuinely necessary: the candidate pattern has no
-literal newline (a `?` of the less specific pattern absorbs it, but `?` never matches a newline in a
-table name); the unrestricted statement is refuted by `a?` / `a\n`.
+more literal newlines than the less specific one (`moreSpecific_sound_count`; otherwise a `?`
+absorbs a newline, which `?` never matches in a table name); the unrestricted statement is refuted
+by `a?` / `a\n`.  For two patterns that match a common name the hypothesis always holds
+(`moreSpecific_sound_common_name`), so `winner_dominates` is proved for all pattern sets.
 -/
 namespace DoltVerif.C46
 open DoltVerif.Ignore
@@ -50,9 +52,10 @@ theorem moreSpecific_sound_full_false : ¬ moreSpecific_sound_full := by
   have := h "a?".toList ['a', '\n'] (by decide) ['a', '\n'] (by decide)
   revert this; decide
 
-/-- **What the code accepts as "more specific" matches fewer names**: when the candidate contains
-no literal newline, every name matching the candidate matches the less specific pattern. -/
-theorem moreSpecific_sound_partial {p q : Str} (hq : ∀ c ∈ q, c ≠ '\n')
+/-- **What the code accepts as "more specific" matches fewer names**, under the weakest hypothesis
+the argument needs: the candidate has no more literal newlines than the less specific pattern (so
+no `?` absorbs one).  Every name matching the candidate then matches the less specific pattern. -/
+theorem moreSpecific_sound_count {p q : Str} (hn : nl q ≤ nl p)
     (h : moreSpecific p q = true) : ∀ s, matchesName q s = true → matchesName p s = true := by
   intro s hs
   have hd : Den qOk p q := den_of_match h
@@ -61,13 +64,29 @@ theorem moreSpecific_sound_partial {p q : Str} (hq : ∀ c ∈ q, c ≠ '\n')
   clear h hs
   induction hd generalizing s with
   | nil => rw [den_nil_inv hs']; exact .nil
-  | @star p ps w q' hp hw _ ih =>
+  | @star p ps w q' hp hw hden ih =>
     obtain ⟨s1, s2, rfl, h1, h2⟩ := den_append_split hs'
-    have hq' : ∀ c ∈ q', c ≠ '\n' := fun c hc => hq c (by simp [hc])
-    exact .star hp (den_dotOk h1 hw) (ih hq' _ h2)
-  | @one p c ps q' hp hc _ ih =>
-    have hq' : ∀ c ∈ q', c ≠ '\n' := fun c hc => hq c (by simp [hc])
-    have hcq := hq c (by simp)
+    have hn' : nl q' ≤ nl ps := by
+      rw [nl_append, nl_zero_of_dotOk hw] at hn
+      simpa [nl, isStar_ne_nl hp] using hn
+    exact .star hp (den_dotOk h1 hw) (ih hn' _ h2)
+  | @one p c ps q' hp hc hden ih =>
+    have hle := nl_le_of_den_q hden
+    -- the tail keeps the hypothesis, and a `?` does not sit on a newline
+    have hkey : nl q' ≤ nl ps ∧ ((p == '?') = true → (c == '\n') = false) := by
+      unfold charOk at hc
+      by_cases hq1 : (p == '?') = true
+      · have hp' : p = '?' := by simpa using hq1
+        subst hp'
+        simp only [nl] at hn
+        by_cases hcn : (c == '\n') = true
+        · simp [hcn] at hn; omega
+        · simp at hcn; simp [hcn] at hn
+          exact ⟨by simpa using hn, fun _ => by simpa using hcn⟩
+      · have hcp : c = p := by simpa [hq1] using hc
+        subst hcp
+        simp only [nl] at hn
+        exact ⟨by omega, fun h => absurd h hq1⟩
     rcases den_cons_inv hs' with ⟨hstar, _⟩ | ⟨hns, d, s', rfl, hd, h'⟩
     · -- the candidate character is `*` or `%`: the `?` class excludes both, a literal is not a star
       exfalso
@@ -81,7 +100,7 @@ theorem moreSpecific_sound_partial {p q : Str} (hq : ∀ c ∈ q, c ≠ '\n')
         · exact hc.2 h
       · have : c = p := by simpa [hq1] using hc
         subst this; rw [hstar] at hp; cases hp
-    · refine .one hp ?_ (ih hq' _ h')
+    · refine .one hp ?_ (ih hkey.1 _ h')
       unfold charOk at hc hd ⊢
       by_cases hq1 : (p == '?') = true
       · simp only [hq1, if_true]
@@ -89,11 +108,28 @@ theorem moreSpecific_sound_partial {p q : Str} (hq : ∀ c ∈ q, c ≠ '\n')
         · simpa [hq2] using hd
         · have : d = c := by simpa [hq2] using hd
           subst this
-          simp [dotOk, hcq]
+          have := hkey.2 hq1
+          simpa [dotOk] using this
       · simp only [hq1, Bool.false_eq_true, if_false] at hc ⊢
         have hcp : c = p := by simpa using hc
         subst hcp
         simpa [hq1] using hd
+
+/-- the special case stated before: a candidate without literal newline -/
+theorem moreSpecific_sound_partial {p q : Str} (hq : ∀ c ∈ q, c ≠ '\n')
+    (h : moreSpecific p q = true) : ∀ s, matchesName q s = true → matchesName p s = true := by
+  refine moreSpecific_sound_count ?_ h
+  have : nl q = 0 := nl_zero_of_dotOk (fun c hc => by simpa [dotOk] using hq c hc)
+  omega
+
+/-- **Two patterns that match one common name**: then the "more specific" test is sound without any
+hypothesis on the patterns -- both carry exactly the newlines of that name (`nl_of_den`). -/
+theorem moreSpecific_sound_common_name {p q name : Str} (hp : matchesName p name = true)
+    (hq : matchesName q name = true) (h : moreSpecific p q = true) :
+    ∀ s, matchesName q s = true → matchesName p s = true := by
+  refine moreSpecific_sound_count ?_ h
+  rw [← nl_of_den (den_of_match hp), ← nl_of_den (den_of_match hq)]
+  exact Nat.le_refl _
 
 /-- the former D1 witness: `a%` is no longer accepted as more specific than `a?` -/
 example : moreSpecific "a?".toList "a%".toList = false ∧ moreSpecific "a%".toList "a?".toList = true := by
@@ -214,10 +250,7 @@ example : resolve ["a*".toList, "a*".toList] ["ab".toList] = .conflict ∧
 /-! ## 5. the winner really is at least as specific (and where that fails) -/
 
 /-- the semantic claim behind "the most specific matching pattern wins", without any hypothesis
-on the patterns.  Not proved: the only gap is a literal newline inside a pattern (then
-`moreSpecific_sound_partial` does not apply); since two patterns that match the *same* name must
-carry the same number of literal newlines, a `?` can in fact never absorb one here, but that
-counting argument is not formalised. -/
+on the patterns (proved below: `winner_dominates`) -/
 def winner_dominates_full : Prop :=
   ∀ (ps : List Pat) (name : Str), (ps.map (·.pat)).Nodup →
     (decideName ps name = .dontIgnore → ∀ t ∈ trueMatches ps name,
@@ -228,20 +261,23 @@ than `a%` (not ignored), table `ab` is ignored; with the flags swapped it is not
 example : decideName [⟨"a?".toList, true⟩, ⟨"a%".toList, false⟩] "ab".toList = .ignore ∧
     decideName [⟨"a?".toList, false⟩, ⟨"a%".toList, true⟩] "ab".toList = .dontIgnore := by decide
 
-/-- **The winner really is at least as specific**: when no pattern contains a literal newline, a "not ignored" verdict means every
-matching ignored pattern is overridden by a matching not-ignored pattern that matches only names
-the ignored one matches, and symmetrically for an "ignored" verdict. -/
-theorem winner_dominates_partial (ps : List Pat) (name : Str) (hnd : (ps.map (·.pat)).Nodup)
-    (hclean : ∀ p ∈ ps, ∀ c ∈ p.pat, c ≠ '\n') :
+theorem mem_matches {ps : List Pat} {name x : Str}
+    (hx : x ∈ trueMatches ps name ∨ x ∈ falseMatches ps name) : matchesName x name = true := by
+  unfold trueMatches falseMatches at hx
+  simp only [List.mem_map, List.mem_filter, Bool.and_eq_true] at hx
+  rcases hx with ⟨p, ⟨_, _, hm⟩, rfl⟩ | ⟨p, ⟨_, _, hm⟩, rfl⟩ <;> exact hm
+
+/-- **The winner really is at least as specific -- for all pattern sets** (distinct patterns, as in
+dolt_ignore).  A "not ignored" verdict means every matching ignored pattern is overridden by a
+matching not-ignored pattern that matches only names the ignored one matches; symmetrically for an
+"ignored" verdict (other than the rebase table).  No hypothesis about newlines is needed: all
+matching patterns match the same name, hence carry the same number of literal newlines, hence no
+`?` absorbs one (`moreSpecific_sound_common_name`). -/
+theorem winner_dominates (ps : List Pat) (name : Str) (hnd : (ps.map (·.pat)).Nodup) :
     (decideName ps name = .dontIgnore → ∀ t ∈ trueMatches ps name,
       ∃ f ∈ falseMatches ps name, ∀ s, matchesName f s = true → matchesName t s = true) ∧
     (decideName ps name = .ignore → isRebaseTable name = false → ∀ f ∈ falseMatches ps name,
       ∃ t ∈ trueMatches ps name, ∀ s, matchesName t s = true → matchesName f s = true) := by
-  have hcl : ∀ x, (x ∈ trueMatches ps name ∨ x ∈ falseMatches ps name) → ∀ c ∈ x, c ≠ '\n' := by
-    intro x hx
-    unfold trueMatches falseMatches at hx
-    simp only [List.mem_map, List.mem_filter] at hx
-    rcases hx with ⟨p, ⟨hp, _⟩, rfl⟩ | ⟨p, ⟨hp, _⟩, rfl⟩ <;> exact hclean p hp
   have spec := ignore_decision_spec ps name hnd
   simp only [] at spec
   obtain ⟨sR, sN⟩ := spec
@@ -262,7 +298,7 @@ theorem winner_dominates_partial (ps : List Pat) (name : Str) (hnd : (ps.map (·
     obtain ⟨d1, d2, d3⟩ := c2 hc
     by_cases hall : ∀ t ∈ trueMatches ps name, Dominated t (falseMatches ps name)
     · obtain ⟨f, hf, hm⟩ := hall t ht
-      exact ⟨f, hf, moreSpecific_sound_partial (hcl f (.inr hf)) hm⟩
+      exact ⟨f, hf, moreSpecific_sound_common_name (mem_matches (.inl ht)) (mem_matches (.inr hf)) hm⟩
     · by_cases hall2 : ∀ f ∈ falseMatches ps name, Dominated f (trueMatches ps name)
       · rw [d2 hall hall2] at hd; cases hd
       · rw [d3 hall hall2] at hd; cases hd
@@ -278,8 +314,21 @@ theorem winner_dominates_partial (ps : List Pat) (name : Str) (hnd : (ps.map (·
     · rw [d1 hall] at hd; cases hd
     · by_cases hall2 : ∀ f ∈ falseMatches ps name, Dominated f (trueMatches ps name)
       · obtain ⟨t, ht, hm⟩ := hall2 f hf
-        exact ⟨t, ht, moreSpecific_sound_partial (hcl t (.inl ht)) hm⟩
+        exact ⟨t, ht, moreSpecific_sound_common_name (mem_matches (.inr hf)) (mem_matches (.inl ht)) hm⟩
       · rw [d3 hall hall2] at hd; cases hd
+
+/-- the full statement holds -/
+theorem winner_dominates_full_holds : winner_dominates_full :=
+  fun ps name hnd => (winner_dominates ps name hnd).1
+
+/-- kept under its old name (now a corollary; the hypothesis is not needed any more) -/
+theorem winner_dominates_partial (ps : List Pat) (name : Str) (hnd : (ps.map (·.pat)).Nodup)
+    (_hclean : ∀ p ∈ ps, ∀ c ∈ p.pat, c ≠ '\n') :
+    (decideName ps name = .dontIgnore → ∀ t ∈ trueMatches ps name,
+      ∃ f ∈ falseMatches ps name, ∀ s, matchesName f s = true → matchesName t s = true) ∧
+    (decideName ps name = .ignore → isRebaseTable name = false → ∀ f ∈ falseMatches ps name,
+      ∃ t ∈ trueMatches ps name, ∀ s, matchesName t s = true → matchesName f s = true) :=
+  winner_dominates ps name hnd
 
 example : decideName [⟨"a*".toList, true⟩, ⟨"a?".toList, false⟩] "ab".toList = .dontIgnore := by decide
 
